@@ -7,6 +7,15 @@ def T(id, old, new, file="eqsig/loader.py", **kw):
 
 
 VARIANTS = [
+    B('writer-blocks-fused', '    para = [label, "%i %.4f" % (len(values), dt)]\n    for i in range(len(values)):\n        para.append("%.6f" % values[i])\n    ofile = open(ffp, "w")\n    ofile.write("\\n".join(para))\n    ofile.close()\n', '    step = 2 ** 16\n    with open(ffp, "w") as ofile:\n        ofile.write("%s\\n%i %.4f\\n" % (label, len(values), dt))\n        for i in range(0, len(values), step):\n            ofile.write("\\n".join(["%.6f" % v for v in values[i:i + step]]))\n', 'R-FMT-LAYOUT'),
+    T('writer-blocks-separated', '    para = [label, "%i %.4f" % (len(values), dt)]\n    for i in range(len(values)):\n        para.append("%.6f" % values[i])\n    ofile = open(ffp, "w")\n    ofile.write("\\n".join(para))\n    ofile.close()\n', '    step = 2 ** 16\n    with open(ffp, "w") as ofile:\n        ofile.write("%s\\n%i %.4f\\n" % (label, len(values), dt))\n        for i in range(0, len(values), step):\n            ofile.write("\\n".join(["%.6f" % v for v in values[i:i + step]]) + "\\n")\n'),
+    T('writer-streaming-lines', '    para = [label, "%i %.4f" % (len(values), dt)]\n    for i in range(len(values)):\n        para.append("%.6f" % values[i])\n    ofile = open(ffp, "w")\n    ofile.write("\\n".join(para))\n    ofile.close()\n', '    with open(ffp, "w") as ofile:\n        ofile.write(label + "\\n")\n        ofile.write("%i %.4f" % (len(values), dt))\n        for v in values:\n            ofile.write("\\n%.6f" % v)\n'),
+    B('writer-streaming-no-newline-after-header', '    para = [label, "%i %.4f" % (len(values), dt)]\n    for i in range(len(values)):\n        para.append("%.6f" % values[i])\n    ofile = open(ffp, "w")\n    ofile.write("\\n".join(para))\n    ofile.close()\n', '    with open(ffp, "w") as ofile:\n        ofile.write(label + "\\n")\n        ofile.write("%i %.4f" % (len(values), dt))\n        for v in values:\n            ofile.write("%.6f\\n" % v)\n', 'R-FMT-LAYOUT'),
+    T('writer-fstrings', '    para = [label, "%i %.4f" % (len(values), dt)]\n    for i in range(len(values)):\n        para.append("%.6f" % values[i])\n    ofile = open(ffp, "w")\n    ofile.write("\\n".join(para))\n    ofile.close()\n', '    para = [label, f"{len(values):d} {dt:.4f}"]\n    para += [f"{v:.6f}" for v in values]\n    with open(ffp, "w") as ofile:\n        ofile.write("\\n".join(para))\n'),
+    T('writer-trailing-newline', '    para = [label, "%i %.4f" % (len(values), dt)]\n    for i in range(len(values)):\n        para.append("%.6f" % values[i])\n    ofile = open(ffp, "w")\n    ofile.write("\\n".join(para))\n    ofile.close()\n', '    para = [label, "%i %.4f" % (len(values), dt)]\n    for i in range(len(values)):\n        para.append("%.6f" % values[i])\n    ofile = open(ffp, "w")\n    ofile.write("\\n".join(para) + "\\n")\n    ofile.close()\n'),
+    B('writer-blank-line-after-header', '    para = [label, "%i %.4f" % (len(values), dt)]\n    for i in range(len(values)):\n        para.append("%.6f" % values[i])\n    ofile = open(ffp, "w")\n    ofile.write("\\n".join(para))\n    ofile.close()\n', '    para = [label, "%i %.4f" % (len(values), dt), ""]\n    for i in range(len(values)):\n        para.append("%.6f" % values[i])\n    ofile = open(ffp, "w")\n    ofile.write("\\n".join(para))\n    ofile.close()\n', 'R-FMT-LAYOUT'),
+    B('writer-append-mode', '    para = [label, "%i %.4f" % (len(values), dt)]\n    for i in range(len(values)):\n        para.append("%.6f" % values[i])\n    ofile = open(ffp, "w")\n    ofile.write("\\n".join(para))\n    ofile.close()\n', '    para = [label, "%i %.4f" % (len(values), dt)]\n    for i in range(len(values)):\n        para.append("%.6f" % values[i])\n    ofile = open(ffp, "a")\n    ofile.write("\\n".join(para))\n    ofile.close()\n', 'R-FMT-LAYOUT'),
+    B('writer-two-values-per-line', '    para = [label, "%i %.4f" % (len(values), dt)]\n    for i in range(len(values)):\n        para.append("%.6f" % values[i])\n    ofile = open(ffp, "w")\n    ofile.write("\\n".join(para))\n    ofile.close()\n', '    para = [label, "%i %.4f" % (len(values), dt)]\n    for i in range(0, len(values) - 1, 2):\n        para.append("%.6f %.6f" % (values[i], values[i + 1]))\n    ofile = open(ffp, "w")\n    ofile.write("\\n".join(para))\n    ofile.close()\n', 'R-FMT-LAYOUT'),
     B("values-4-decimals", '        para.append("%.6f" % values[i])\n', '        para.append("%.4f" % values[i])\n', "R-FMT-PREC"),
     B("values-exponent", '        para.append("%.6f" % values[i])\n', '        para.append("%.6e" % values[i])\n', "R-FMT-PREC"),
     B("values-g", '        para.append("%.6f" % values[i])\n', '        para.append("%g" % values[i])\n', "R-FMT-PREC"),
